@@ -7,6 +7,7 @@ import (
 	"math/big"
 	"os"
 	"path/filepath"
+	"sync"
 
 	"verif/core"
 	"verif/evmkit"
@@ -19,16 +20,19 @@ import (
 
 // ---------------------------------------------------------------- the fixed base state
 //
-// genesis: DefaultGenesis (admin contract) + alice funded with F, eoa with 1000
-// block 1: dep deploys Store and Loop, dep puts KV k=base, alice puts KV warm=up
-// ⇒ alice (the grid sender) has nonce 1 and balance F; bob/carol have nonce 0.
+// genesis: DefaultGenesis (admin contract) + n grid senders funded with F and
+// nonce 1 each (one fresh sender per case, so that cases chained on one
+// application instance do not disturb each other's nonce), eoa with 1000
+// block 1: dep deploys Store and Loop, dep puts KV k=base
+// all other accounts (neighbour / tail senders, carol) have nonce 0, balance 0.
 
 var (
-	dep   = evmkit.Key(0)
-	alice = evmkit.Key(1)
-	bob   = evmkit.Key(2)
-	eoa   = evmkit.Key(3)
-	carol = evmkit.Key(4)
+	dep       = evmkit.Key(0)
+	alice     = gridSender(0)
+	bob       = evmkit.Key(2) // nonce 0, no balance
+	mutSender = evmkit.Key(5) // funded, nonce 1 (base of the mutated transfer)
+	eoa       = evmkit.Key(3)
+	carol     = evmkit.Key(4)
 
 	fresh     = common.HexToAddress("0x00000000000000000000000000000000c0ffee00")
 	storeAddr = evmkit.CreatedAddress(dep.Addr, 0)
@@ -50,14 +54,30 @@ func baseBlock() [][]byte {
 		evmkit.Create(dep, 0, evmkit.StoreInit()),
 		evmkit.Create(dep, 1, evmkit.LoopInit()),
 		evmkit.KVPut(dep, 2, []byte("k"), []byte("base")),
-		evmkit.KVPut(alice, 0, []byte("warm"), []byte("up")),
 	}
 }
 
+var keyCache sync.Map
+
+func cachedKey(i int) *evmkit.Account {
+	if v, ok := keyCache.Load(i); ok {
+		return v.(*evmkit.Account)
+	}
+	a := evmkit.Key(i)
+	keyCache.Store(i, a)
+	return a
+}
+
+// gridSender(i) sends the grid tx of case i; neighbour(i) sends the two valid
+// txs around it in the "between" placement; tailSender(i) the valid tx that
+// closes raw block i.
+func gridSender(i int) *evmkit.Account { return cachedKey(1000 + i) }
+func neighbour(i int) *evmkit.Account  { return cachedKey(1000000 + i) }
+func tailSender(i int) *evmkit.Account { return cachedKey(2000000 + i) }
+
 // globalAccounts / globalKeys are observed after every block of every run.
-var globalAccounts = []common.Address{dep.Addr, alice.Addr, bob.Addr, eoa.Addr, carol.Addr, fresh, storeAddr, loopAddr,
-	evmkit.AdminTo, evmkit.AdminPrecompile, {} /* coinbase */, common.BytesToAddress([]byte{1}), common.BytesToAddress([]byte{4})}
-var globalKeys = [][]byte{[]byte("k"), []byte("warm"), []byte("gk"), []byte("kB"), bigKey, {}}
+var globalAccounts = []common.Address{eoa.Addr, fresh, storeAddr, loopAddr, evmkit.AdminTo, evmkit.AdminPrecompile, {} /* coinbase */, common.BytesToAddress([]byte{1})}
+var globalKeys = [][]byte{[]byte("k"), []byte("gk"), []byte("kB"), bigKey, {}}
 
 // adminCallback is installed into the AdminOP precompile: stateless, accepts
 // exactly the payloads ending in "ok".
@@ -70,15 +90,23 @@ func adminCallback(from []byte, data []byte) error {
 
 // buildTemplate creates the base chain directory and a read-only base chain for
 // pre-state queries.
-func buildTemplate(work string) (tpl string, base *evmkit.Chain) {
+func buildTemplate(work string, senders int) (tpl string, base *evmkit.Chain) {
 	tpl = filepath.Join(work, "tpl")
 	os.RemoveAll(tpl)
-	c, err := evmkit.Open(evmkit.Options{Dir: tpl, Alloc: map[common.Address]*big.Int{alice.Addr: fundF, eoa.Addr: big.NewInt(1000)}})
+	alloc := map[common.Address]*big.Int{eoa.Addr: big.NewInt(1000)}
+	nonces := map[common.Address]uint64{mutSender.Addr: aliceNonce}
+	alloc[mutSender.Addr] = fundF
+	for i := 0; i < senders; i++ {
+		a := gridSender(i).Addr
+		alloc[a] = fundF
+		nonces[a] = aliceNonce
+	}
+	c, err := evmkit.Open(evmkit.Options{Dir: tpl, Alloc: alloc, AllocNonce: nonces})
 	if err != nil {
 		core.Fatal("cannot open template chain: %v", err)
 	}
 	r, err := c.ExecBlock(baseBlock())
-	if err != nil || len(r.Valid) != 4 || len(r.Invalid) != 0 {
+	if err != nil || len(r.Valid) != 3 || len(r.Invalid) != 0 {
 		core.Fatal("base block failed: %v %+v", err, r)
 	}
 	if c.Nonce(alice.Addr) != aliceNonce || c.BalanceVia(storeAddr, alice.Addr).Cmp(fundF) != 0 {
@@ -205,16 +233,20 @@ func recipientAddr(r string) *common.Address {
 	case "loop":
 		a = loopAddr
 	case "self":
-		a = alice.Addr
+		a = common.Address{} // replaced by the sender's own address in buildTx
 	default:
 		panic("unknown recipient " + r)
 	}
 	return &a
 }
 
-// buildTx encodes the grid transaction (sender alice, current nonce aliceNonce).
-func buildTx(s txSpec) []byte {
+// buildTx encodes the grid transaction for the given sender (current nonce aliceNonce, balance fundF).
+func buildTx(s txSpec, alice *evmkit.Account) []byte {
 	spec := evmkit.TxSpec{Nonce: uint64(int64(aliceNonce) + int64(s.N)), To: recipientAddr(s.R), Data: payloadBytes(s.P)}
+	if s.R == "self" {
+		self := alice.Addr
+		spec.To = &self
+	}
 	switch s.G {
 	case "0":
 		spec.Gas = 0
